@@ -245,13 +245,13 @@ def worker(ctx, job):
 def run(ctx):
     njobs = 16
     nshort = ctx.pick(3, 80)       # per job
-    nlong = ctx.pick(20, 600)
+    nlong = ctx.pick(20, 2500)
     jobs = []
     for j in range(njobs):
         jobs.append({"short": list(range(j * nshort, (j + 1) * nshort)),
                      "long": list(range(j * nlong, (j + 1) * nlong)),
-                     "nrandom": ctx.pick(40, 120), "budget": ctx.pick(25, 330)})
-    ctx.shard(jobs, timeout=ctx.pick(60, 400))
+                     "nrandom": ctx.pick(40, 120), "budget": ctx.pick(25, 900)})
+    ctx.shard(jobs, timeout=ctx.pick(60, 1500))
     ctx.floor("distinct_nontrivial", ctx.pick(100, 3000))
     ctx.floor("whole_parses", ctx.pick(120, 3500))
     ctx.floor("split_cases", ctx.pick(60000, 2000000))
